@@ -207,9 +207,12 @@ func (t *Type) resolve(d *typeDictionary) (errs []error) {
 	if t.resolving {
 		return []error{fmt.Errorf("%s: cyclic type reference: %s", Source(t), t.Name)}
 	}
-	if t.YangType != nil && t.resolvedGen == d.gen {
+	if t.resolvedGen == d.gen && (t.YangType != nil || len(t.resolveErrs) > 0) {
 		// Report the errors of the first resolution again, otherwise a
-		// type that failed to resolve would look valid from now on.
+		// type that failed to resolve would look valid from now on.  A
+		// resolution that failed altogether is remembered as well: a
+		// failing typedef used twice by each typedef of a chain was
+		// resolved 2^k times.
 		return t.resolveErrs
 	}
 	t.YangType = nil
@@ -468,7 +471,21 @@ check:
 	// so we have to check equality the hard way.
 looking:
 	for _, ut := range t.Type {
-		errs = append(errs, ut.resolve(d)...)
+		// Members that fail for the same reason report the same error
+		// values: keep one of each, or the list doubles at every level
+		// of a chain of unions.
+		for _, err := range ut.resolve(d) {
+			dup := false
+			for _, o := range errs {
+				if o == err {
+					dup = true
+					break
+				}
+			}
+			if !dup {
+				errs = append(errs, err)
+			}
+		}
 		if ut.YangType != nil {
 			for _, yt := range y.Type {
 				if ut.YangType.Equal(yt) {
